@@ -208,10 +208,10 @@ def rule_a(ctx):
         cons = consumed_keys(m, r)
         for key, val in sorted(written.items()):
             ctx.ob(R, rd.qname, f"{w.name}: key '{key}' written by metadata() is consumed by {r.name}.__init__", key in cons,
-                   f"{r.name} (the class the reader instantiates for a saved {w.name}) never reads '{key}': the value is lost on reload", rd.node)
+                   f"{r.name} (the class the reader instantiates for a saved {w.name}) never reads '{key}': the value is lost on reload", rd.node, evidence=True)
             if val.startswith("self.") and key in cons:
                 attr = val[5:]
-                ctx.ob(R, rd.qname, f"{w.name}: '{key}' round-trips through self.{attr}", attr in cons[key], f"constructor assigns {cons[key]} from '{key}'", rd.node)
+                ctx.ob(R, rd.qname, f"{w.name}: '{key}' round-trips through self.{attr}", attr in cons[key], f"constructor assigns {cons[key]} from '{key}'", rd.node, evidence=True)
     ctx.floor(R, 3)
     sv = m.func(IMG, "Image.save")
     calls = [c for c in ast.walk(sv.node) if isinstance(c, ast.Call) and norm(c.func) == "np.savez"]
